@@ -16,7 +16,9 @@ B = "grin_chain::store::Batch::"
 
 def run(c):
     import r9
-    c.r9("C16")
+    # a segment proof is SegmentProof::generate's `bag_the_rhs` of the serving node against the root the receiving node rebuilds: the two peak
+    # folding functions (in pmmr.rs, which only C07's mechanism list names) are part of "a segment produced by a node validates"
+    c.r9("C16", also=[("C07", r"ReadablePMMR::bag_the_rhs(@|$)|ReadablePMMR::root$")])
     # --- segments are cached only after validation against the archive header
     c.r1("bitmap-validated", D + "add_bitmap_segment", S + "Segment::validate_with", sink=D + "cache_bitmap_segment", via=2)
     c.r2_arg("bitmap-root", D + "add_bitmap_segment", S + "Segment::validate_with", 3, must=["arg0.archive_header.output_root"])
